@@ -120,6 +120,10 @@ func (s *Sess) genHostile(lim Limits) *Op {
 	case OpCreate:
 		op.Name = s.hostileName(lim)
 		op.Mode = hostileEnum(r)
+		if r.Intn(3) == 0 {
+			op.SetSize = true
+			op.Size = hostileU64(r, lim)
+		}
 	case OpSymlink:
 		op.Name = s.hostileName(lim)
 		op.Target = longName([]int{0, 1, 100, 4096, 4097, 70000}[r.Intn(6)], 'T')
